@@ -26,10 +26,31 @@ pub fn bin() -> Option<PathBuf> {
 pub fn run<S: AsRef<OsStr>>(args: &[S]) -> Option<CliOut> {
     let b = bin()?;
     let mut child = Command::new(b).args(args).stdin(Stdio::null()).stdout(Stdio::piped()).stderr(Stdio::piped()).env("RUST_BACKTRACE", "0").spawn().ok()?;
+    // both pipes are drained while the tool runs (an error message can quote a whole block of the file, far more than a pipe holds)
+    fn drain(r: Option<impl std::io::Read + Send + 'static>) -> std::thread::JoinHandle<Vec<u8>> {
+        std::thread::spawn(move || {
+            let mut v = vec![];
+            if let Some(mut r) = r {
+                let mut buf = [0u8; 65536];
+                while let Ok(n) = r.read(&mut buf) {
+                    if n == 0 {
+                        break;
+                    }
+                    // keep the beginning only
+                    if v.len() < 1 << 20 {
+                        v.extend_from_slice(&buf[..n]);
+                    }
+                }
+            }
+            v
+        })
+    }
+    let out_t = drain(child.stdout.take());
+    let err_t = drain(child.stderr.take());
     let t0 = std::time::Instant::now();
-    loop {
+    let status = loop {
         match child.try_wait() {
-            Ok(Some(_)) => break,
+            Ok(Some(st)) => break st,
             Ok(None) => {
                 if t0.elapsed().as_secs() > 120 {
                     let _ = child.kill();
@@ -40,9 +61,10 @@ pub fn run<S: AsRef<OsStr>>(args: &[S]) -> Option<CliOut> {
             }
             Err(_) => return None,
         }
-    }
-    let o = child.wait_with_output().ok()?;
-    Some(CliOut { code: o.status.code(), stdout: String::from_utf8_lossy(&o.stdout).into_owned(), stderr: String::from_utf8_lossy(&o.stderr).into_owned() })
+    };
+    let stdout = out_t.join().unwrap_or_default();
+    let stderr = err_t.join().unwrap_or_default();
+    Some(CliOut { code: status.code(), stdout: String::from_utf8_lossy(&stdout).into_owned(), stderr: String::from_utf8_lossy(&stderr).into_owned() })
 }
 
 /// `jbk check <file>` folded to the classes of the dump: "ok:true", "ok:false", "err:<message>", "panic:<first line>"
